@@ -39,9 +39,9 @@ def mutations(rng, kb, ver):
     # block count
     for bc in ("99", "00", "01", "0x", "٣٣", " 1", "1 ", "+1", "-1", "1\n"):
         yield "block-count", kb[:12] + bc + kb[14:]
-    # version / fixed fields
+    # version / fixed fields (count and reserved field - positions 12..15 - with every hostile character: nothing else validates them)
     for pos in range(0, 16):
-        for ch in rng.sample(NASTY, 4) + ["E", "Z", "0"]:
+        for ch in (NASTY if pos >= 12 else rng.sample(NASTY, 4)) + ["E", "Z", "0"]:
             yield f"fixed-field", kb[:pos] + ch + kb[pos + 1:]
     # optional block surgery: replace the block area by crafted blocks (count patched, length patched)
     def rebuild(blocks_s, count, fix_len=True, ver_=ver):
@@ -120,7 +120,7 @@ def generate(rng, tier, seed):
             kbpk, h, key, kb = genuine(rng, ver, nblocks=rng.choice([0, 1, 2]))
             muts = list(mutations(rng, kb, ver))
             if tier == "quick":
-                muts = [m for i, m in enumerate(muts) if i % 2 == (seed + ord(ver)) % 2 or m[0] in ("crafted-blocks", "whitespace-run")]
+                muts = [m for i, m in enumerate(muts) if i % 2 == (seed + ord(ver)) % 2 or m[0] in ("crafted-blocks", "whitespace-run", "fixed-field")]
             for kind, s in muts:
                 c = Case(f"{ver}:{kind}", {})
                 targets(c, rng, kbpk, s)
